@@ -28,6 +28,8 @@ CONSTANTS
   TrampFlushed = TRUE
   Regen = FALSE
   SavedFrom = "install"
+  ForeignReuse = FALSE
+  AllocAt = "hint"
   MaxEvents = 40
   MaxInst = 1
 INVARIANT Emit
